@@ -138,6 +138,13 @@ def snap_close(a, b, tol, memo=frozenset(MEMO)):
     return True, ""
 
 
+def miniball_reagrees(obj, name, r1, r2):
+    """recorded finding miniball-randomised-solver: two evaluations of a miniball-based query may differ because the third-party solver
+    is randomised; it is a repeated-query violation only if a third evaluation agrees with neither of the first two"""
+    st, r3 = C.excname(lambda: getattr(obj, name))
+    return st == "ok" and (Z.values_close(Z.canon(r3), Z.canon(r1), 1e-8, 0) or Z.values_close(Z.canon(r3), Z.canon(r2), 1e-8, 0))
+
+
 def run(chk):
     rng = chk.rng
     chk.notes["rule"] = ("every ordered pair of queries (properties by reflection + query methods + exports) on a fresh off-origin shape of each of the 10 "
@@ -188,7 +195,8 @@ def run(chk):
                         chk.violation("handed-out-array-modified", dict(desc, array=n,
                                                                         before=str(cp)[:300], after=str(ref)[:300])); break
                 if a == b:
-                    if not Z.values_close(Z.canon(r1), Z.canon(r2), 1e-12, 1e-11 if a in MOVERS else 0) and not isinstance(r1, bytes):
+                    if (not Z.values_close(Z.canon(r1), Z.canon(r2), 1e-12, 1e-11 if a in MOVERS else 0) and not isinstance(r1, bytes)
+                            and not (a.startswith("minimal_bounding") and miniball_reagrees(obj, a, r1, r2))):
                         chk.violation("repeated-query-differs", dict(desc, first_value=str(r1)[:200], second_value=str(r2)[:200]))
                     if isinstance(r1, bytes) and r1 != r2:
                         chk.violation("repeated-export-differs", dict(desc))
